@@ -298,6 +298,10 @@ class _H183(Hooks):
             return TOP
         n = np_name(func)
         if n == 'zeros':
+            it.trace.append(('zeros', args[0] if args else kwargs.get('shape')))
+            return Tagged('new_edge')
+        if n == 'zeros_like' and args and isinstance(args[0], _PrevErr):
+            it.trace.append(('zeros', _KN(2)))          # as long as the error it is added to
             return Tagged('new_edge')
         if n == 'random.choice':
             it.trace.append(('choice', args, kwargs))
@@ -350,12 +354,34 @@ class _PrevErr:
     __radd__ = __add__
 
 
+class _N(Sym):
+    """The qubit count, with the multiples k*n needed for vector lengths."""
+
+    def __mul__(self, o):
+        return _KN(o) if isinstance(o, int) and not isinstance(o, bool) else NotImplemented
+
+    __rmul__ = __mul__
+
+    def __add__(self, o):
+        return _KN(2) if isinstance(o, _N) else NotImplemented
+
+    __hash__ = Sym.__hash__
+
+
+class _KN:
+    def __init__(self, k):
+        self.k = k
+
+    def __repr__(self):
+        return f'{self.k}*n'
+
+
 def _r183(ctx: Ctx) -> None:
     m = ctx.model
     ci, fn = m.method('SplittingSimulation', 'get_next_error')
     mi = ci.module
     site = site_of(mi, fn)
-    nq = Sym('n')
+    nq = _N('n')
     hooks = _H183(nq)
     it = Interp(m, hooks)
     prev = _PrevErr()
@@ -521,6 +547,15 @@ def _r183(ctx: Ctx) -> None:
             if pats != want:
                 ok_c, detail_c = False, f'with {offered} offered the proposal writes bit pairs {sorted(pats)}, ' \
                                         f'expected {sorted(want)}'
+    # the proposal vector has the length of a BSF vector of the code (2n): a store at n + e_index must exist
+    szs = [t[1] for o in rets for t in o.trace if t[0] == 'zeros']
+    if not szs or any(not isinstance(z, _KN) for z in szs):
+        raise AnalysisError('R18.3', site, f'get_next_error: length of the proposal vector not tracked ({szs[:3]!r})')
+    sizes = {repr(z) for z in szs}
+    two_n = {repr(_KN(2))}
+    ctx.ob('R18.3', site, 'get_next_error: the proposal vector has length 2n', sizes <= two_n,
+           f'np.zeros({sorted(sizes - two_n)}): a Z or Y proposal stores at n + e_index, outside a vector of that length',
+           key='SplittingSimulation.get_next_error|length', facts=sorted(sizes))
     ctx.need(found_any, 'R18.3', site, 'no Pauli proposal found')
     ctx.ob('R18.3', site, 'get_next_error: proposal = one qubit, Pauli with non-zero probability, BSF bits',
            ok_c, detail_c, key='SplittingSimulation.get_next_error|proposal', facts=facts_c)
@@ -530,9 +565,15 @@ def run(ctx: Ctx) -> None:
     ctx.rule('R18.1', 'each (mask, probability) term of error_probability selects exactly its Pauli', floor=4)
     ctx.rule('R18.2', 'log form = sum(log(v)), plain form = prod(v), same vector v', floor=4)
     ctx.rule('R18.3', 'Metropolis step uses log-likelihoods of old/new error at one rate; proposal is a '
-                      'single-qubit Pauli of non-zero probability', floor=3)
+                      'single-qubit Pauli of non-zero probability', floor=4)
+    ctx.rule('R18.4', 'error_probability as resolved on the concrete noise class (an override included) equals the '
+                      'product / log-sum of the per-qubit channel of the same object, for directions with and without equal '
+                      'rates, deformed and undeformed', floor=8)
     ctx.trust('numpy semantics of logical_and/logical_not/==, sum, prod, log, exp on arrays')
     with ctx.part():
         _r181_182(ctx)
+    with ctx.part():
+        from .c08 import prob_vs_distribution
+        prob_vs_distribution(ctx, 'R18.4')
     with ctx.part():
         _r183(ctx)
